@@ -67,7 +67,7 @@ def c19(tier, only=None):
                    ['<DataValue as PartialEq/Eq/PartialOrd/Ord/Hash> (derived) and the payload types\' impls', 'DataValue::{min, max}', 'SecondaryRowHandler <-> i64'],
                    ['print/parse round trips other than that of Interval, Decimal and Vector are outside (string formatting does not terminate under CBMC)',
                     'agreement of the SQL comparison kernels with cmp on non-NULL values is decided under C14'], 2400 if thorough else 1500,
-                   extra=lambda rep: (__import__('mirsmt.c19m', fromlist=['run']).run(rep, thorough), __import__('mirsmt.c19ops', fromlist=['run']).run(rep, thorough)))
+                   extra=lambda rep: (__import__('mirsmt.c19m', fromlist=['run']).run(rep, thorough), __import__('mirsmt.c19ops', fromlist=['run']).run(rep, thorough), __import__('relsmt.c12', fromlist=['ordered_scan_probes']).ordered_scan_probes(rep, thorough)))
 
 
 def c06(tier, only=None):
